@@ -732,7 +732,8 @@ pub fn c12_judge(src: &str) -> Result<Option<(usize, bool, usize)>, Failure> {
         let start = a.find(MARK).unwrap();
         let Some(len) = a[start + ml..].find(MARK) else { continue };
         let marker = &a[start..start + ml + len + ml];
-        let written = all_attrs.iter().filter(|x| x.contains(marker)).count();
+        // occurrences, not attributes: a (fuzzed) attribute may contain the same marker text more than once
+        let written: usize = all_attrs.iter().map(|x| x.matches(marker).count()).sum();
         let emitted = out.matches(marker).count();
         if emitted != written {
             return fail("attribute-elsewhere", format!("marker {marker} occurs {emitted} time(s) in the emitted text, written {written} time(s)"));
